@@ -408,6 +408,75 @@ fn with_pipe_cell(variant: usize, e: &mut Emit) {
     e.line("done");
 }
 
+mod sched_part2 {
+    //! A completely full pipe in blocking mode is handed to `register_raw` while the signal is being
+    //! delivered - from another thread and nested at every operation boundary of the registration.
+    use crate::props::reg::{fresh_registry, Disp, S1, S2};
+    use crate::sched::{self, Opts, Scenario, ThreadSpec};
+    use std::sync::{Arc, Mutex};
+
+    pub struct St {
+        fds: [i32; 2],
+        id: Mutex<Option<signal_hook::SigId>>,
+    }
+
+    pub fn build(name: &'static str) -> Scenario<Arc<St>> {
+        let setup = || {
+            fresh_registry(&[(S1, Disp::Ignore), (S2, Disp::Ignore)]);
+            let mut fds = [0i32; 2];
+            unsafe {
+                libc::pipe(fds.as_mut_ptr());
+                libc::fcntl(fds[1], libc::F_SETPIPE_SZ, 4096);
+                let fl = libc::fcntl(fds[1], libc::F_GETFL);
+                libc::fcntl(fds[1], libc::F_SETFL, fl | libc::O_NONBLOCK);
+                let buf = [0u8; 4096];
+                while libc::write(fds[1], buf.as_ptr() as *const _, buf.len()) > 0 {}
+                while libc::write(fds[1], buf.as_ptr() as *const _, 1) > 0 {}
+                libc::fcntl(fds[1], libc::F_SETFL, fl); // blocking again, as the application created it
+            }
+            Arc::new(St { fds, id: Mutex::new(None) })
+        };
+        let m = ThreadSpec {
+            name: "M",
+            body: Box::new(move |s: &Arc<St>| {
+                let id = signal_hook::low_level::pipe::register_raw(S1, s.fds[1]).expect("register_raw");
+                *s.id.lock().unwrap() = Some(id);
+            }),
+            nest_signals: vec![S1],
+            max_nest: 2,
+        };
+        let d = ThreadSpec {
+            name: "D",
+            body: Box::new(move |_s: &Arc<St>| {
+                sched::raise(S1);
+                sched::raise(S1);
+            }),
+            nest_signals: vec![],
+            max_nest: 0,
+        };
+        Scenario {
+            name: name.to_string(),
+            opts: Opts { stale_reads: false, stale_depth: 2, max_spurious: 0, horizon: 20_000, log_ops: false, log_handler_ops: false, reduce: true, no_discipline: false, nest_value_t1: 0, post_points: false, no_race_check: false, start_points: false, endurance: 0 },
+            signals: vec![S1, S2],
+            setup: Box::new(setup),
+            threads: vec![m, d],
+            finish: Box::new(|s, e| {
+                if !e.panics.is_empty() {
+                    return Err(format!("C13: a thread panicked: {:?}", e.panics));
+                }
+                if let Some(id) = s.id.lock().unwrap().take() {
+                    signal_hook::low_level::unregister(id);
+                }
+                unsafe {
+                    libc::close(s.fds[0]);
+                }
+                Ok(e.log.iter().filter(|x| x.tag == "wake").count() as u64)
+            }),
+            monitor: None,
+        }
+    }
+}
+
 pub fn run(tier: Tier) -> BResult {
     let kinds = [Kind::Pipe, Kind::Stream, Kind::Dgram];
     let bursts: Vec<usize> = if tier == Tier::Quick { vec![0, 1, 2, 3, 4] } else { (0..=8).collect() };
@@ -558,7 +627,34 @@ pub fn run(tier: Tier) -> BResult {
     let mut a_trans = 0u64;
     let mut a_execs = 0u64;
     let mut a_caps = Vec::new();
-    for (name, handle_first) in [("owners_go_away_vs_deliveries", false), ("owners_go_away_handle_first_vs_deliveries", true)] {
+    for (name, handle_first) in [("owners_go_away_vs_deliveries", 0u8), ("owners_go_away_handle_first_vs_deliveries", 1), ("register_raw_full_blocking_pipe_vs_deliveries", 2)] {
+        if handle_first == 2 {
+            let sc = sched_part2::build(name);
+            let cfg = crate::explore::Config { property: "C13".into(), bound: Some(if tier == Tier::Quick { 2 } else { 3 }), max_wall: Duration::from_secs(if tier == Tier::Quick { 25 } else { 600 }), workers: crate::props::workers_for(3), hang_secs: 30 };
+            match crate::explore::explore(&sc, &cfg) {
+                Ok(sum) => {
+                    eprintln!("[C13] schedules {:<44} bound={:?} execs={} states={} steps={} distinct={}{}", name, cfg.bound, sum.stats.executions, sum.stats.states, sum.stats.transitions, sum.stats.digests.len(), if sum.stats.capped { " CAPPED" } else { "" });
+                    a_states += sum.stats.states;
+                    a_trans += sum.stats.transitions;
+                    a_execs += sum.stats.executions;
+                    if sum.stats.capped {
+                        a_caps.push(json!({"scenario": name, "cap": "wall-clock"}));
+                    }
+                    *classes.entry(format!("schedules:{}", name)).or_insert(0) += sum.stats.executions;
+                    for v in sum.violations {
+                        let cl = crate::explore::class_of(&v.message);
+                        if cl == "engine" {
+                            violations.push(BViolation { message: format!("engine: {}", v.message), case: json!({"scenario": name}) });
+                        } else if cl == "C13" || cl == "crash" || cl == "hung" {
+                            violations.push(BViolation { message: format!("{} [schedule replay: {}]", v.message, v.replay), case: json!({"scenario": name, "engine": "sigsched", "choices": v.choices}) });
+                        }
+                    }
+                }
+                Err(er) => violations.push(BViolation { message: format!("engine: {}", er), case: json!({"scenario": name}) }),
+            }
+            continue;
+        }
+        let handle_first = handle_first == 1;
         let sc = sched_part::build(name, handle_first);
         let cfg = crate::explore::Config { property: "C13".into(), bound: Some(if tier == Tier::Quick { 2 } else { 3 }), max_wall: Duration::from_secs(if tier == Tier::Quick { 25 } else { 600 }), workers: crate::props::workers_for(3), hang_secs: 30 };
         match crate::explore::explore(&sc, &cfg) {
@@ -593,7 +689,7 @@ pub fn run(tier: Tier) -> BResult {
         violations,
         exhaustive: a_caps.is_empty(),
         caps: a_caps,
-        rule: format!("schedules: the action of a registered pipe is removed and an iterator instance and its last handle are dropped (both orders) while the signal is delivered from another thread and nested at every operation boundary of the teardown - every wake attempt must hit an open descriptor, and none happens once the owners are gone; every choice vector within the deviation bound on the real code; grid: complete grid descriptor kind {{pipe, unix stream, unix datagram}} x fill level {{empty, nearly full, completely full}} x burst {:?} x entry {{register_raw, register}} + 5 ownership histories per kind (register/deliver/unregister; rejected: forbidden, OS-refused, fd -1, closed number; then a sentinel on the freed number while the library keeps being used) + 4 histories of a write end handed to SignalDelivery::with_pipe (list refused by the OS / by panic after an accepted signal; accepted list then drop); each cell in a forked child with a watchdog", bursts),
+        rule: format!("schedules: the action of a registered pipe is removed and an iterator instance and its last handle are dropped (both orders) while the signal is delivered from another thread and nested at every operation boundary of the teardown - every wake attempt must hit an open descriptor, and none happens once the owners are gone; a completely full pipe in blocking mode is handed to register_raw while the signal is delivered from another thread and nested at every boundary of the registration - no wake attempt may meet a full pipe that is still blocking; every choice vector within the deviation bound on the real code; grid: complete grid descriptor kind {{pipe, unix stream, unix datagram}} x fill level {{empty, nearly full, completely full}} x burst {:?} x entry {{register_raw, register}} + 5 ownership histories per kind (register/deliver/unregister; rejected: forbidden, OS-refused, fd -1, closed number; then a sentinel on the freed number while the library keeps being used) + 4 histories of a write end handed to SignalDelivery::with_pipe (list refused by the OS / by panic after an accepted signal; accepted list then drop); each cell in a forked child with a watchdog", bursts),
         assumptions: vec!["wake attempts are counted through the cfg(sighook_verif) scheduling point in pipe::wake".into(), "pipe capacity reduced to one page with F_SETPIPE_SZ".into()],
     }
 }
